@@ -30,6 +30,10 @@ func main() {
 		usage()
 	}
 	id := os.Args[1]
+	if id == "extents" && len(os.Args) > 3 {
+		debugExtents(os.Args[2:])
+		return
+	}
 	if id == "guards" && len(os.Args) > 2 {
 		debugGuards(os.Args[2:])
 		return
